@@ -140,6 +140,7 @@ func property(outer *testing.T, rec *vstats.Recorder, freeRun bool) func(*rapid.
 		c.ClassIf(discards > 0, "has_discard")
 		c.ClassIf(r.sawBlockedCall, "saw_actor_blocked_inside_call")
 		c.ClassIf(r.sawTaskPending, "saw_consumer_waiting_for_task")
+		c.ClassIf(r.handlerProtocolOdd, "impl_handler_done_not_exactly_once")
 		streamKind := p.src.kind == kCASReader || p.src.kind == kCASChunks
 		mix := mixesCloneAndTask(p.root)
 		c.ClassIf(mix, "mixes_clone_and_task")
